@@ -5,6 +5,7 @@ import Gopki.Generated.Facts
 import Gopki.Lemmas.TimeRound
 import Gopki.Lemmas.CertWf2
 import Gopki.Lemmas.CertRound
+import Gopki.Lemmas.CertPipeline
 /-! # C02 — emitted certificates are canonical-DER, conformant X.509v3 structures -/
 namespace C02
 open Der Asn1 Gen Config
@@ -151,6 +152,31 @@ theorem C02_model_cert_roundtrip (t : Gen.Tbs) (tv : Tlv) (outer : AlgId) (sig :
     ∃ c a, t.sigAlg = some a ∧ X509.decCertificate v = some c ∧ CertRound.Fields t a c.tbs ∧ c.tbs.raw = tv ∧
       c.sigAlg.oid = outer.oid ∧ c.sigAlg.params = outer.params ∧ c.signature = bitStringContent sig.bytes sig.bitLength :=
   CertRound.decCertificate_certTlv t tv outer sig v htbs ht ho h
+
+/-- **end to end, from the signing pipeline**: whatever body `signBody` returns for a context whose inner signature
+    algorithm is not manipulated — any issuer, any of the eight algorithms, any extension builders (constants with
+    acceptable OIDs, hashed key identifiers), names with acceptable attribute OIDs, key material whose
+    SubjectPublicKeyInfo is what `SetPrivateKey` writes — the certificate the model assembles from it (any signature
+    octets) is well-formed canonical DER, the strict decoder returns exactly it, and the RFC 5280 reader returns the
+    body's fields and the outer AlgorithmIdentifier -/
+theorem C02_issued_certificate_canonical_and_readable (ctx : Context) (iss : IssuerContext) (alg : Nat) (tbs : Gen.Tbs)
+    (outer : AlgId) (k : PrivKey) (tv v : Tlv) (sig : Bytes)
+    (h : signBody ctx iss alg = .ok (tbs, outer, k)) (hno : ctx.tbs.sigAlg = none)
+    (hiss : ∀ a ∈ iss.issuerDn, CertWf.OidOk a.oid) (hsubj : ∀ a ∈ ctx.tbs.subject, CertWf.OidOk a.oid)
+    (hkeyAlg : CertWf.AlgOk ctx.tbs.spki.alg) (hkeyBits : CertWf.BitsOk ctx.tbs.spki.bits)
+    (hb : ∀ b ∈ ctx.builders, CertPipeline.BuilderOk b)
+    (htbs : tbsTlv tbs = .ok tv) (hc : certTlv ⟨tv, outer, ⟨sig, 8 * sig.length⟩⟩ = .ok v) (hl : v.enc.length < 2 ^ 64) :
+    v.wf = true ∧ X509.canonical v = true ∧ X509.decodeDer v.enc = some v ∧
+    ∃ c a, tbs.sigAlg = some a ∧ X509.decCertificate v = some c ∧ CertRound.Fields tbs a c.tbs ∧
+      c.sigAlg.oid = outer.oid ∧ c.sigAlg.params = outer.params ∧ c.signature = 0 :: sig := by
+  obtain ⟨hok, hout⟩ := CertPipeline.signBody_tbsOk ctx iss alg tbs outer k h hno hiss hsubj hkeyAlg hkeyBits hb
+  obtain ⟨h1, h2, h3⟩ := C02_model_cert_canonical tbs tv outer sig v htbs hok hout hc hl
+  obtain ⟨c, a, ha, hd, hf, _, ho1, ho2, hs⟩ := CertRound.decCertificate_certTlv tbs tv outer ⟨sig, 8 * sig.length⟩ v htbs hok hout.1 hc
+  refine ⟨h1, h2, h3, c, a, ha, hd, hf, ho1, ho2, ?_⟩
+  rw [hs]
+  simp only [bitStringContent]
+  have : (8 - 8 * sig.length % 8) % 8 = 0 := by omega
+  rw [this]; rfl
 
 /-- what `signBody` puts into the algorithm identifiers satisfies `AlgOk`: the whole table -/
 theorem C02_sigAlg_ok : ∀ alg ∈ List.range 8, ∀ a, sigAlgId alg = some a → CertWf.AlgOk a := by
